@@ -189,7 +189,9 @@ void h_mark(void)
 #ifdef VERIF_NATIVE
 	exit(77);
 #endif
-	region_scrub_mark(&st, silent, ioerr, generic, rehash, rh, MARK_DISKS, IN.i, IN.info, IN.t);
+	/* block_is_unsynced: a local of the enclosing function the region does not read today; handed in (arbitrary) so that a
+	 * change that makes the book-keeping depend on it is decided instead of ending as a compile error */
+	region_scrub_mark(&st, silent, ioerr, generic, rehash, rh, MARK_DISKS, IN.i, IN.info, IN.t, IN.block_unsynced0 != 0);
 	if (silent || ioerr) {
 		VERIF_ASSERT(g_set_calls == 1 && g_set_pos == IN.i && g_set_info == (IN.info | 1u), "scrub marks a stripe bad on a silent or I/O error, keeping its time and other marks");
 	} else if (generic) {
